@@ -26,4 +26,11 @@ func init() {
 		bg.emitConsts(w, "bgzf")
 		bg.emitFunc(w, "bgzf", "", "compressBound", nil, nil)
 	}
+	// Integer and string constants of the remaining packages (prefix = package name).
+	emitters["40_consts"] = func(w *bytes.Buffer) {
+		for _, d := range [][2]string{{"sam", "sam"}, {"bam", "bam"}, {"csi", "csi"}, {"tabix", "tabix"},
+			{"fai", "fai"}, {"bgzf/index", "bgzfindex"}, {"bgzf/cache", "bgzfcache"}, {"cram", "cram"}} {
+			load(d[0]).emitConsts(w, d[1])
+		}
+	}
 }
